@@ -268,6 +268,57 @@ def chk_agree_scalar_or_none(nfiles: int, mode: int, s: int, ks: int) -> bool:
     return _agree(nfiles, [0] * nfiles, mode, s, 0, ks, [0] * nfiles)
 
 
+def _repeated(fs, idxs, kidx, use_keys):
+    """The same file may be listed several times (fs[k] = which file stands at position k); the per-file lists are
+    positional, so position k uses idxs[k] / keys[kidx[k]] whatever file stands there."""
+    names = _paths(3)
+    paths = [names[f] for f in fs]
+    n = len(paths)
+    kinds = [[1, 1, 1] for _ in range(3)]
+    ksel = [KEYS[i] for i in kidx] if use_keys else None
+    with _Env(kinds):
+        coll = tc.load(paths, hdu_index=list(idxs), wcs_key=ksel)
+        scan = list(coll._scan_hdus())
+        simple = coll.export_simple()
+        descs = list(coll.descriptions())
+        imgs = list(coll.images())
+    ok = len(scan) == n and len(simple) == n and len(descs) == n and len(imgs) == n
+    for k in range(n):
+        f, want = fs[k], idxs[k]
+        wkey = KEYS[kidx[k]] if use_keys else " "
+        p, hi, hdu, key = scan[k]
+        ok = ok and p == paths[k] and hi == want and (hdu.fileno, hdu.i) == (f, want) and key == wkey
+        ok = ok and simple[k] == (paths[k], want)
+        d, im = descs[k], imgs[k]
+        ok = ok and d.wcs.header["HDUID"] == (f, want) and im.wcs.header["HDUID"] == (f, want)
+        ok = ok and d.wcs.key == wkey and im.wcs.key == wkey
+        ok = ok and tuple(d.shape) == (2 + f, 3 + want) and tuple(im.shape) == tuple(d.shape)
+    return ok
+
+
+def chk_repeated_paths_index(f1: int, f2: int, i0: int, i1: int, i2: int) -> bool:
+    """
+    A file listed more than once (positions 1 and 2 are file 0 again or file 1): every POSITION gets its own entry of
+    the per-file HDU list.
+
+    pre: 0 <= f1 < 2 and 0 <= f2 < 2
+    pre: 0 <= i0 < 3 and 0 <= i1 < 3 and 0 <= i2 < 3
+    post: _
+    """
+    return _repeated([0, f1, f2], [i0, i1, i2], [0, 0, 0], False)
+
+
+def chk_repeated_paths_index_and_key(f1: int, i0: int, i1: int, k0: int, k1: int) -> bool:
+    """
+    Two positions (possibly the same file), per-file HDU list and per-file key list.
+
+    pre: 0 <= f1 < 2
+    pre: 0 <= i0 < 3 and 0 <= i1 < 3 and 0 <= k0 < 3 and 0 <= k1 < 3
+    post: _
+    """
+    return _repeated([0, f1], [i0, i1], [k0, k1], True)
+
+
 def chk_load_single_path(s: int) -> bool:
     """
     pre: 0 <= s < 3
